@@ -222,6 +222,7 @@ func runFixed(c *core.Ctx, accuracy bool) {
 		c.Obs("tasks", 1)
 		c.Sample("task", map[string]any{"fn": name, "enumeration": kind, "index_range": []uint64{t.lo, t.hi}, "values": count})
 	}
+	flushScanObs(c)
 	c.Floor("tasks", int64(len(tasks)))
 	if accuracy {
 		c.Floor("narrowing_inexact_quotients", 1000)
